@@ -11,6 +11,10 @@ def stepC09 (s : Topo) (j : Json) : Topo × Json :=
                         ("cpEdgeOk", Json.bool (decide (CpEdgeOk s))), ("spLeaf", Json.bool (decide (SpLeaf s))),
                         ("spOwned", Json.bool (decide (SpOwned s))), ("spPeer1", Json.bool (decide (SpPeer1 s))),
                         ("removeHyp", Json.bool (decide (FimVerif.C09.RemoveHyp s)))]))
+  else if FimVerif.TopoRun.getStr j "op" == "order" then
+    -- the hypothesis of `C09.order_discipline` on the write-order table generated in this run
+    (s, ok (Json.mkObj [("ok", Json.bool FimVerif.C09.orderOk),
+                        ("bad", Json.arr (FimVerif.C09.orderBad.map (fun p => Json.arr #[Json.str p.1, Json.str p.2])).toArray)]))
   else if FimVerif.TopoRun.getStr j "op" == "update_caplab" then
     -- third alphabet (Model/TopoC09.lean): dispatched through `Topo.stepY`, what `C09.atomic_yop` is about
     let arg := match FimVerif.TopoRun.propArgs j "props" with
